@@ -497,8 +497,11 @@ def fault_descs_extra(rng, tier_quick=True):
     for i, cls in enumerate(["greginv", "gsi", "gcay", "gbuck", "gchol"] * (1 if tier_quick else 3)):
         kw = geig_kw(rng, cls, "d", nmax=14)
         sel = 3 if cls == "gbuck" else 0
-        kw.update(hist="N,I,C0,A", args0="%d:4:-8:3" % sel, meas=0, mconv=0, ref=0, fstride=stride + (2 if tier_quick else 0), foff=rng.randint(0, 2),
-                  ftarget="b" if i % 2 == 0 else "a")
+        # faults in the B operator: EVERY application index also in the quick tier (B is applied at a few isolated points - once per restart in
+        # compress_V, in the norms of expand_basis - that a strided sweep would step over)
+        tb = i % 2 == 0
+        kw.update(hist="N,I,C0,A", args0="%d:4:-8:3" % sel, meas=0, mconv=0, ref=0, fstride=1 if tb else stride + (2 if tier_quick else 0),
+                  foff=0 if tb else rng.randint(0, 2), ftarget="b" if tb else "a")
         out.append(desc(**kw))
     return out
 
